@@ -137,6 +137,11 @@ theorem safe_join_confined : C17_full := by
   rw [normalize_stays_below base name p h]
   exact List.prefix_append _ _
 
+example : Confined "/srv/t".toList "a//b.txt".toList "/srv/t/a/b.txt".toList :=
+  (safe_join_confined _ _).2 _ (by decide)
+example : safeJoin "../t/".toList "x/..".toList = none :=
+  (safe_join_confined _ _).1 dotdot (by decide) (by simp)
+
 /-- names computed inside a template (`include`, `import`, `from`, `extends`) reach the loader
     unchanged when no join callback is installed -/
 theorem get_template_passes_name (name parent : Str) : joinTemplatePath none name parent = name := rfl
